@@ -158,7 +158,10 @@ class MaxPoolPlugin(PrimitiveLeafPlugin):
             if padding.upper() == "SAME":
                 return int(np.ceil(length / stride))
             return int(np.floor((length - window) / stride) + 1)
-        return length
+        # Symbolic extent: the same formulas in JAX's dimension arithmetic.
+        if padding.upper() == "SAME":
+            return -(-length // stride)  # type: ignore[operator]
+        return (length - window) // stride + 1  # type: ignore[operator]
 
     @staticmethod
     def abstract_eval(
